@@ -12,6 +12,9 @@
 #include <string>
 #include <vector>
 #include <memory>
+#include <map>
+#include <functional>
+#include <algorithm>
 
 struct GNode {
   hwloc_obj_type_t type = HWLOC_OBJ_MACHINE;
@@ -33,7 +36,7 @@ struct GenXml {
   std::unique_ptr<GNode> root;
   std::string text, summary;
   USet pus, numas, allowed_c, allowed_n, offline_c, offline_n;
-  bool has_allowed_attrs = true, has_complete_attrs = true, asym = false, has_memcache = false, multi_numa_obj = false;
+  bool has_allowed_attrs = true, has_complete_attrs = true, asym = false, has_memcache = false, multi_numa_obj = false, interleaved = false;
   unsigned nio = 0, nmisc = 0, ngroups = 0;
   uint64_t total_memory = 0;
 };
@@ -124,6 +127,12 @@ static GenXml gen_xml(Draw &d, const GenXmlOpts &o = GenXmlOpts()) {
   gx_build(x, root, 0, npu, 0);
   for (auto &k : root->kids) { root->cs.insert(k->cs.begin(), k->cs.end()); root->ccs.insert(k->ccs.begin(), k->ccs.end()); }
   x.normals.push_back(root);
+  // one document in three: OS indexes interleaved across the tree (package 0 = CPUs 0,4,8,12 as on real machines) instead of contiguous
+  // ranges: a random bijection on the index space, then every children list sorted by the first bit of its complete set
+  if (d.chance(1, 3)) { std::vector<unsigned> from; for (auto v : root->ccs) from.push_back(v); std::vector<unsigned> to = from; for (size_t i = to.size(); i > 1; i--) std::swap(to[i - 1], to[d.raw() % i]); std::map<unsigned, unsigned> pi; for (size_t i = 0; i < from.size(); i++) pi[from[i]] = to[i];
+    auto mapset = [&](USet &u) { USet r; for (auto v : u) r.insert(pi[v]); u = r; };
+    std::function<void(GNode *)> rec = [&](GNode *n) { mapset(n->cs); mapset(n->ccs); if (n->type == HWLOC_OBJ_PU) n->os = (long)*n->cs.begin(); for (auto &k : n->kids) rec(k.get()); std::sort(n->kids.begin(), n->kids.end(), [](const std::unique_ptr<GNode> &a, const std::unique_ptr<GNode> &b) { return *a->ccs.begin() < *b->ccs.begin(); }); };
+    rec(root); mapset(g.pus); mapset(g.offline_c); g.interleaved = true; }
   // NUMA nodes: memory children of arbitrary normal non-PU objects (several per object allowed), optionally behind a memory-side cache
   unsigned nnuma = 1 + (d.chance(1, 2) ? d.range(0, 4) : 0); unsigned nidx = d.chance(1, 4) ? d.range(0, 2) : 0; std::vector<unsigned> nos; for (unsigned i = 0; i < nnuma; i++) { nos.push_back(nidx); nidx += 1 + (d.chance(1, 5) ? d.range(1, 3) : 0); }
   int attach_mode = d.range(0, 2);   // 0: anywhere, 1: all at the root, 2: at one level's objects in order
@@ -148,7 +157,7 @@ static GenXml gen_xml(Draw &d, const GenXmlOpts &o = GenXmlOpts()) {
   // gp_index: unique, shuffled, possibly sparse
   { std::vector<GNode *> all; gx_number(x, root, all); std::vector<uint64_t> ids; uint64_t cur = 1; for (size_t i = 0; i < all.size(); i++) { ids.push_back(cur); cur += 1 + (d.chance(1, 6) ? d.range(1, 50) : 0); } if (d.chance(1, 2)) for (size_t i = ids.size(); i > 1; i--) std::swap(ids[i - 1], ids[d.raw() % i]); for (size_t i = 0; i < all.size(); i++) all[i]->gp = ids[i]; }
   g.text = "<?xml version=\"1.0\" encoding=\"UTF-8\"?>\n<!DOCTYPE topology SYSTEM \"hwloc2.dtd\">\n<topology version=\"3.0\">\n"; gx_write(g, root, g.text, 2, true); g.text += "</topology>\n";
-  g.summary = strf("genxml(%zu PUs%s, %zu NUMA%s%s%s, offline cpus {%s} nodes {%s}, %s%s, %u io, %u misc, %u groups)", g.pus.size(), g.asym ? ", asymmetric" : "", g.numas.size(), g.has_memcache ? "+memcache" : "", g.multi_numa_obj ? ", several per object" : "", attach_mode == 1 ? " at the root" : "", ustr(g.offline_c).c_str(), ustr(g.offline_n).c_str(),
+  g.summary = strf("genxml(%zu PUs%s%s, %zu NUMA%s%s%s, offline cpus {%s} nodes {%s}, %s%s, %u io, %u misc, %u groups)", g.pus.size(), g.asym ? ", asymmetric" : "", g.interleaved ? ", interleaved indexes" : "", g.numas.size(), g.has_memcache ? "+memcache" : "", g.multi_numa_obj ? ", several per object" : "", attach_mode == 1 ? " at the root" : "", ustr(g.offline_c).c_str(), ustr(g.offline_n).c_str(),
                    g.has_allowed_attrs ? strf("allowed cpus {%s} nodes {%s}", ustr(g.allowed_c).c_str(), ustr(g.allowed_n).c_str()).c_str() : "no allowed_* attributes", g.has_complete_attrs ? "" : ", complete_* left out where equal", g.nio, g.nmisc, g.ngroups);
   return g;
 }
